@@ -30,11 +30,20 @@ Fixpoint vsub (x y : vec) : vec :=
   | _, _ => []
   end.
 
-Definition vscale (a : Q) (v : vec) : vec := map (fun c => a * c) v.
+(* Multiplication with the shorter operand first.  Pos.mul / Z.mul recurse on their first argument, so the order decides
+   the cost of the extracted code (the checkers multiply ~50-bit by ~1000-bit integers); the value is the same:
+   qmul a b = a * b (lemma qmul_eq). *)
+Definition zmul_s (a b : Z) : Z :=
+  if (Z.log2 (Z.abs a) <=? Z.log2 (Z.abs b))%Z then (a * b)%Z else (b * a)%Z.
+Definition pmul_s (p q : positive) : positive :=
+  if (Pos.size_nat p <=? Pos.size_nat q)%nat then (p * q)%positive else (q * p)%positive.
+Definition qmul (a b : Q) : Q := Qmake (zmul_s (Qnum a) (Qnum b)) (pmul_s (Qden a) (Qden b)).
+
+Definition vscale (a : Q) (v : vec) : vec := map (fun c => qmul a c) v.
 
 Fixpoint dot (x y : vec) : Q :=
   match x, y with
-  | a :: x', b :: y' => a * b + dot x' y'
+  | a :: x', b :: y' => qmul a b + dot x' y'
   | _, _ => 0
   end.
 
